@@ -969,12 +969,16 @@ static std::string any_step(const std::string &tok)
   int i = std::stoi(f[1]);
   auto num = [&](size_t k) { return std::stol(f[k]); };
   int ki = g_slots[i].kind;
-  if (c == "cd" || c == "cv" || c == "cc") {
+  if (c == "cd" || c == "cv" || c == "cc" || c == "mc") {
     if (ki) return "ill";
-    if (c == "cc") {
+    if (c == "cc" || c == "mc") {
       int j = (int)num(2);
       if (!g_slots[j].kind) return "ill";
-      new (g_slots[i].buf) Any(static_cast<const Any &>(any_at(j)));
+      // Any declares no move constructor (its copy operations and destructor suppress the implicit one):
+      // construction from an rvalue and from a non-const lvalue both select Any(const Any &), not the template Any(T)
+      if (c == "mc") new (g_slots[i].buf) Any(std::move(any_at(j)));
+      else if (j % 2) new (g_slots[i].buf) Any(any_at(j));
+      else new (g_slots[i].buf) Any(static_cast<const Any &>(any_at(j)));
     } else if (c == "cd") new (g_slots[i].buf) Any();
     else new (g_slots[i].buf) Any(any_make(num(2), num(3)));
     g_slots[i].kind = 1;
@@ -985,11 +989,12 @@ static std::string any_step(const std::string &tok)
   const Any &ca = a;
   if (c == "d") { a.~Any(); g_slots[i].kind = 0; return "ok"; }
   if (c == "av") { any_assign_value(a, num(2), num(3)); return "ok"; }
-  if (c == "ac" || c == "eq" || c == "ne") {
+  if (c == "ac" || c == "ma" || c == "eq" || c == "ne") {
     int j = (int)num(2);
     if (!g_slots[j].kind) return "ill";
     const Any &b = any_at(j);
-    if (c == "ac") { a = b; return "ok"; }
+    if (c == "ma") { a = std::move(any_at(j)); return "ok"; }      // no move assignment either: copies
+    if (c == "ac") { if (j % 2) a = any_at(j); else a = b; return "ok"; }
     if (c == "eq") return (ca == b) ? "true" : "false";
     return (ca != b) ? "true" : "false";
   }
